@@ -179,6 +179,12 @@ def check(run):
                         nt = True
                     if got != want:
                         run.mismatch('cstr.construct', 'pos%d' % pos, {'kind': kind, 'inp': inp, 'pos': pos}, want, got)
+                    # the same primitive as the library's struct sets name it: the inline string form of DWARF (either byte order)
+                    for nm, aprim in (('dwarf:le:DW_FORM_string', st_le.Dwarf_dw_form['DW_FORM_string']),
+                                      ('dwarf:be:DW_FORM_string', st_be.Dwarf_dw_form['DW_FORM_string'])):
+                        got = _run_prim(aprim, data, pos)
+                        if got != want:
+                            run.mismatch('cstr.alias', nm, {'kind': kind, 'inp': inp, 'pos': pos}, want, got)
             elif kind == 'initlen':
                 for (k, ver), prim in il.items():
                     e = exp[k]['v%d' % ver]
